@@ -117,7 +117,13 @@ fn main() {
             // show <profile> <seed> [filter]
             let profile = args.get(2).cloned().unwrap_or("smoke".into());
             let s: u64 = args.get(3).and_then(|s| s.parse().ok()).unwrap_or(0);
-            let plan = gen::generate(&profile, s).expect("profile");
+            // `show file <replay.json>` runs the plan stored in a replay file
+            let plan = if profile == "file" {
+                let doc: serde_json::Value = serde_json::from_str(&std::fs::read_to_string(args.get(3).unwrap()).unwrap()).unwrap();
+                serde_json::from_value(doc["plan"].clone()).unwrap()
+            } else {
+                gen::generate(&profile, s).expect("profile")
+            };
             let t = std::time::Instant::now();
             let r = run::run_plan(&plan);
             let wall = t.elapsed();
@@ -126,7 +132,7 @@ fn main() {
             }
             for e in r.entries.iter() {
                 let s = e.render();
-                if s.contains("Snapshot") || s.contains("Buffered") || s.contains("PeerRead") || s.contains("ClientRead") {
+                if std::env::var_os("RDSIM_SHOW_ALL").is_none() && (s.contains("Snapshot") || s.contains("Buffered") || s.contains("PeerRead") || s.contains("ClientRead")) {
                     continue;
                 }
                 writeln!(out, "{}", &s[..s.len().min(260)]).ok();
